@@ -412,3 +412,38 @@ Proof.
   apply (oracle_from_model (init (i_cap i)) (i_events i) (init_inv _)).
   apply no_add_tables_b_spec. exact H.
 Qed.
+
+(* Second way table-file additions break the statement, on an INITIALISED store:
+   AddTableFilesToManifest checks the new files' references with nbs.refCheck, which also
+   consults this handle's memtable and novel tables (store.go:2002, 1470-1496) — chunks that are
+   not persisted.  The file enters the manifest at once; the memtable chunk it points to can be
+   lost (here: dropped by handlePossibleDanglingRefError when an unrelated commit is rejected),
+   and a later accepted commit publishes a root that reaches the missing chunk. *)
+Definition wit2_events : list event :=
+  [EPut {| c_addr := 3; c_refs := []; c_size := 8 |}; ECommit 3 0;
+   EPut {| c_addr := 1; c_refs := []; c_size := 8 |};
+   EAddTables [{| c_addr := 5; c_refs := [1]; c_size := 8 |}];
+   EPut {| c_addr := 6; c_refs := [44]; c_size := 8 |}; ECommit 6 3;
+   EPut {| c_addr := 7; c_refs := [5]; c_size := 8 |}; ECommit 7 3].
+
+Theorem closed_preserved_table_files_memtable_child_refuted :
+  exists (cap : N) (es : list event),
+    let st := run (init cap) es in
+    (* the store was initialised before the files were added *)
+    m_root (run (init cap) (firstn 2 es)) <> 0
+    /\ m_root st <> 0
+    /\ exists b, reachable (m_chunks st) (m_root st) b /\ ~ Has (m_chunks st) b.
+Proof.
+  exists 100, wit2_events.
+  assert (E1 : m_root (run (init 100) (firstn 2 wit2_events)) = 3) by (vm_compute; reflexivity).
+  assert (E2 : m_root (run (init 100) wit2_events) = 7) by (vm_compute; reflexivity).
+  assert (E3 : m_chunks (run (init 100) wit2_events)
+               = [{| c_addr := 3; c_refs := []; c_size := 8 |}; {| c_addr := 5; c_refs := [1]; c_size := 8 |};
+                  {| c_addr := 7; c_refs := [5]; c_size := 8 |}]) by (vm_compute; reflexivity).
+  cbn zeta. rewrite E1, E2, E3. split; [discriminate | split; [discriminate|]].
+  exists 1. split.
+  - eapply (reach_step _ 7 _ 5); [right; right; left; reflexivity | reflexivity | left; reflexivity|].
+    eapply (reach_step _ 5 _ 1); [right; left; reflexivity | reflexivity | left; reflexivity|].
+    apply reach_refl.
+  - unfold Has. cbn. intros [H|[H|[H|[]]]]; discriminate.
+Qed.
